@@ -163,6 +163,120 @@ def main():
         shutil.rmtree(scratch, ignore_errors=True)
     print("C15RESULT " + json.dumps(out))
 
+# ---------------------------------------------------------------------------------------------------------------------------
+# fixed (not seeded) definitions: `c15_worker.py fixed <mode>`
+
+
+def fixed_definition():
+    """four states, THREE controls whose declaration order is not their name order, two calibration values, two sensors"""
+    S = gen.Symbol
+    sin, cos = gen.sympy.sin, gen.sympy.cos
+    dt = S("dt")
+    x, y, v, th = S("x"), S("y"), S("v"), S("th")
+    turn, accel, brake = S("turn"), S("accel"), S("brake")
+    k1, k2 = S("k1"), S("k2")
+    sm = {x: x + v * cos(th) * dt + k1, y: y + v * sin(th) * dt, v: v + (accel - brake * v) * dt, th: th + turn * dt * k2}
+    d = gen.Definition(dt, [x, y, v, th], [turn, accel, brake], [k1, k2], sm,
+                       {"gps": {"gx": x + k1, "gy": y * cos(th)}, "speed": {"s": v * v}}, transcend=True)
+    d._kind = "ekf"
+    process = {"turn": 0.5, "accel": 0.125, "brake": 2.25}
+    sensor = {"gps": {"gx": 0.5, "gy": 0.25}, "speed": {"s": 1.5}}
+    cal = {"k1": 0.125, "k2": 2.0}
+    return d, process, sensor, cal
+
+
+def fixed_other_definition():
+    S = gen.Symbol
+    dt, p, q, w = S("dt"), S("p"), S("q"), S("w")
+    d = gen.Definition(dt, [p, q], [w], [], {p: p + q * dt + p * q * dt, q: q + w * dt + p * q}, {"tick": {"t_a": p * q + p}})
+    d._kind = "ekf"
+    return d, {"w": 0.75}, {"tick": {"t_a": 0.375}}, {}
+
+
+def _sha_pair(g):
+    return [hashlib.sha256(open(g["header"]).read().encode()).hexdigest(), hashlib.sha256(open(g["source"]).read().encode()).hexdigest()]
+
+
+def fixed_noise_orders(scratch):
+    """the same definition under every declaration order of its process-noise entries (3 controls: 6 orders), the sensor-noise
+    entries rotated along, set and list containers alternating"""
+    import itertools
+    import numpy as _np
+    d, process, sensor, cal = fixed_definition()
+    runs = []
+    for i, order in enumerate(itertools.permutations(sorted(process))):
+        pn = {n: process[n] for n in order}
+        keys = sorted(sensor)
+        keys = keys[i % len(keys):] + keys[:i % len(keys)]
+        sn = {}
+        for key in keys:
+            rs = sorted(sensor[key])
+            rs = rs[(i // 2) % len(rs):] + rs[:(i // 2) % len(rs)]
+            sn[key] = {r: sensor[key][r] for r in rs}
+        container = "set" if i % 2 == 0 else "list"
+        g = cppgen.generate(d, pn, sn, cal, scratch, "fix", rng=None, container=container)
+        one = {"noise_order": list(order), "sensor_noise_order": [[k2, list(v2)] for k2, v2 in sn.items()], "container": container,
+               "sha": _sha_pair(g)}
+        with contextlib.redirect_stdout(io.StringIO()):
+            ekf = eh.compile_ekf(d, pn, sn, cal, None, container=container)
+        one["py_arglist"] = [str(a) for a in ekf._state_model.arglist]
+        one["py_process_noise"] = [[float(x) for x in row] for row in _np.asarray(ekf.process_noise, dtype=float)]
+        one["py_readings"] = {k2: [str(r) for r in sm.readings] for k2, sm in sorted(ekf.sensor_models.items())}
+        runs.append(one)
+    return {"runs": runs, "declared_process_noise": process, "controls_by_name": sorted(process)}
+
+
+PARTIAL_CONFIG = {"max_dt_sec": 0.05}
+
+
+def fixed_config_history(scratch, mode):
+    """generations of ONE definition under ONE configuration at different points of a process's life. `alone-default` /
+    `alone-partial`: the only generation of a fresh process. `history`: the same generations before and after generations of another
+    definition whose configuration is handed over as a dict (the repository's generator scripts do so)"""
+    d, process, sensor, cal = fixed_definition()
+    o, po, so, co = fixed_other_definition()
+
+    def default(kind="ekf"):
+        return _sha_pair(cppgen.generate(d, process, sensor, cal, scratch, "cfg", rng=None, kind=kind, config_override=None))
+
+    def partial():
+        return _sha_pair(cppgen.generate(d, process, sensor, cal, scratch, "cfg", rng=None, config_override=dict(PARTIAL_CONFIG)))
+
+    def other(cfg):
+        cppgen.generate(o, po, so, co, scratch, "oth", rng=None, config_override=dict(cfg))
+
+    if mode == "alone-default":
+        return {"default": default()}
+    if mode == "alone-default-model":
+        return {"default_model": default("model")}
+    if mode == "alone-partial":
+        return {"partial": partial()}
+    out = {"default_first": default(), "default_model_first": default("model")}
+    other({"common_subexpression_elimination": False, "innovation_filtering": 2.5})
+    out["default_after_dict"] = default()
+    out["default_model_after_dict"] = default("model")
+    out["partial_first"] = partial()
+    other({"extra_validation": True, "max_dt_sec": 0.25})
+    out["partial_after_dict"] = partial()
+    out["default_after_two_dicts"] = default()
+    return out
+
+
+def main_fixed():
+    mode = sys.argv[2]
+    scratch = tempfile.mkdtemp(prefix="c15f_")
+    try:
+        out = fixed_noise_orders(scratch) if mode == "noise-orders" else fixed_config_history(scratch, mode)
+    finally:
+        import shutil
+        shutil.rmtree(scratch, ignore_errors=True)
+    out["hashseed"] = os.environ.get("PYTHONHASHSEED")
+    out["mode"] = mode
+    print("C15RESULT " + json.dumps(out))
+
 
 if __name__ == "__main__":
-    main()
+    if len(sys.argv) > 1 and sys.argv[1] == "fixed":
+        main_fixed()
+    else:
+        main()
